@@ -4,6 +4,7 @@ from __future__ import annotations
 import ast
 
 import z3
+from .slicing import fold as _fold
 
 from .source import builtin_exc_subclass, BUILTIN_EXC
 from .values import (V, NONE, NoneV, Opt, StrV, EnumV, Rec, Ref, TupleV, BytesV, ClassV, FuncV, BoundV,
@@ -340,7 +341,7 @@ class StmtMixin:
                     return None
                 out = []
                 for e in o.items:
-                    p = z3.simplify(e[1])
+                    p = _fold(e[1])
                     if z3.is_false(p):
                         continue
                     if not z3.is_true(p):
